@@ -20,6 +20,7 @@ pub struct BuildCfg<'a> {
   pub unstable_bytes: bool,
   pub unstable_text: bool,
   pub unstable_css: bool,
+  pub unstable_config: bool,
   pub resolver: Option<&'a dyn deno_graph::source::Resolver>,
   pub npm: Option<&'a dyn deno_graph::source::NpmResolver>,
   pub passthrough_jsr: bool,
@@ -41,6 +42,7 @@ impl Default for BuildCfg<'_> {
       unstable_bytes: false,
       unstable_text: false,
       unstable_css: false,
+      unstable_config: false,
       resolver: None,
       npm: None,
       passthrough_jsr: false,
@@ -94,6 +96,7 @@ pub fn build_graph<'a>(
     unstable_bytes_imports: cfg.unstable_bytes,
     unstable_text_imports: cfg.unstable_text,
     unstable_css_imports: cfg.unstable_css,
+    unstable_config_imports: cfg.unstable_config,
     executor,
     locker: cfg.locker,
     passthrough_jsr_specifiers: cfg.passthrough_jsr,
